@@ -757,7 +757,9 @@ pub fn diagnostic_display_input<W: std::fmt::Write>(w: &mut W, input: &Inp) -> R
         Inp::Star => write!(w, r#"*"#)?,
         Inp::Command { cmd, .. } => write!(w, r#"{{{{{{ {cmd} }}}}}}"#)?,
         Inp::Compadd { cmd, .. } => write!(w, r#"{{{{{{ {cmd} }}}}}}compadd"#)?,
-        Inp::Subword { .. } => unreachable!(),
+        // The path leading to a conflict may cross a within-word expression
+        // (`cmd k:<G> (x "one" | x "two");`); there is no single word to show for it.
+        Inp::Subword { .. } => write!(w, "<...>")?,
     }
     Ok(())
 }
